@@ -680,6 +680,11 @@ def check_c20(model, rep, tier):
     f = model.function("common", "_file_exists")
     cx = facts.fctx(model, f)
     rets = [ev for ev in cx.events if ev.kind == "return"]
-    ok = any(r.value == ("call", ("global", "os.path.exists"), (P(cx.params[0]),), ()) and all(not g[1] for g in r.guards) for r in rets)
+    # ... i.e. whenever the path is not one of the URL forms (the URL test may be conjoined with an isinstance(str) test)
+    def local_branch(r):
+        atoms = facts.guard_atoms(facts.own_guards(cx, r))
+        return all(not pol or (t[0] == "call" and t[1] == ("global", "isinstance")) for t, pol in atoms) or all(
+            not g[1] for g in r.guards)
+    ok = any(r.value == ("call", ("global", "os.path.exists"), (P(cx.params[0]),), ()) and local_branch(r) for r in rets)
     rep.ob("R-LAYOUT-ORDER", "common._file_exists:local", ok, site=cx.site(f.node),
            msg="" if ok else "_file_exists must be os.path.exists for local paths")
